@@ -125,6 +125,8 @@ def check(ctx, tier):
     obs += o_opt
     obs += ctx.attempt(lambda c, cl: plumb.no_cross_option_flow(c, cl)[0], ctx, "D-h", default=[])
     obs += ctx.attempt(lambda c, cl: mergetable.invariants(c, cl, which=('or-scope', 'direction'))[0], ctx, "D-i", default=[])
+    from .c03 import tuning_table       # option scopes of all_compliant / allow_opt / disable_exact, decided at the entry point
+    obs += ctx.attempt(lambda c, cl: tuning_table(c, cl)[0], ctx, "D-j", default=[])
     exceptions.apply(obs)
     floors = [Floor("option control sites examined", nsites, 30), Floor("OR construction sites", len(sites), 1),
               Floor("classes examined for class-level state", n_glob, 60)]
